@@ -544,8 +544,8 @@ theorem address_rt (a : Nat) (h : a < 2 ^ 24) : hexValue (hexChars 6 a) = some a
 
 /-! # Layer 2 — frames
 
-`buildES df ca aa me` (DF 17/18), `buildShort df fs dr um code addr` (DF 4/5) and `buildCommB …` (DF 20/21)
-are the Spec's frames: fields at the standard's bit offsets, then PI parity (syndrome zero) or the
+`buildES df ca aa me` (DF 17/18), `buildShort df fs dr um code addr` (DF 4/5), `buildCommB …` (DF 20/21),
+`buildAir0 …` / `buildAir16 …` (DF 0/16) and `buildAllCall ca aa ic` (DF 11) are the Spec's frames: fields at the standard's bit offsets, then PI parity (syndrome zero) or the
 AP overlay (parity ⊕ address).  The parity hypothesis of the decoder (`modes_checksum = 0`, resp.
 `= address`) is *discharged by construction* (`Proofs.C03.checksum_frame`, from C02's algebra).
 
@@ -1456,5 +1456,28 @@ example : n25 38000 = 1560 ∧ 25 * n25 38000 - 1000 = 38000 := by decide
 example := es_position_partial 17 5 0x40621d 11 0 0 (n25 38000) 0 0 93000 51372 (Or.inl rfl) (by decide) (by decide)
   (Or.inl ⟨by decide, by decide⟩) (by decide) (by decide) (by decide) (by decide) (by decide) (by decide) (by decide)
   (by decide)
+
+-- DF 0 / DF 16 / DF 11 (the repository's tests have no such frame): the Spec encoder reproduces, bit for bit, the
+-- frames the harness's independent positional encoder builds from the same values (38 000 ft, address 40621d), the
+-- hypotheses of the new frame theorems are satisfiable on them, and the decoded members are the encoded ones
+example : buildAir0 0 1 3 3 (ac13Q (n25 38000)) 0x40621d = [0x02, 0x61, 0x98, 0x38, 0xbd, 0x3d, 0xa1] := by
+  decide +kernel
+example : buildAir16 0 7 3 (ac13Q (n25 38000)) 0x40621d [(8, 0x30), (8, 0xa2), (8, 0), (8, 0), (8, 0), (8, 0), (8, 0)]
+    = [0x80, 0xe1, 0x98, 0x38, 0x30, 0xa2, 0, 0, 0, 0, 0, 0x13, 0xe2, 0x62] := by decide +kernel
+example : buildAllCall 5 0x40621d 0 = [0x5d, 0x40, 0x62, 0x1d, 0x4f, 0x94, 0xd0] ∧
+    buildAllCall 5 0x40621d 15 = [0x5d, 0x40, 0x62, 0x1d, 0x4f, 0x94, 0xdf] := by decide +kernel
+example := df0_altitude_partial 0 1 3 3 (n25 38000) 0x40621d (by decide) (by decide) (by decide) (by decide)
+  (by decide) (by decide) (by decide)
+example := df16_altitude_partial 0 7 3 (n25 38000) 0x40621d
+  [(8, 0x30), (8, 0xa2), (8, 0), (8, 0), (8, 0), (8, 0), (8, 0)] (by decide) (by decide) (by decide) (by decide)
+  (by decide) (by decide) rfl rfl
+example := df11_address 5 0x40621d 15 (by decide) (by decide) (by decide)
+example :
+    asInt (decodedGet (tryFrom (buildAir0 0 1 3 3 (ac13Q (n25 38000)) 0x40621d)) (key! "altitude")) = some 38000 ∧
+    asInt (decodedGet (tryFrom (buildAir16 1 7 3 (ac13G (gillhamStep 38000)) 0x40621d
+      [(8, 0x30), (8, 0xa2), (8, 0), (8, 0), (8, 0), (8, 0), (8, 0)])) (key! "altitude")) = some 38000 ∧
+    asInt (decodedGet (tryFrom (buildAir16 1 7 3 (ac13G (gillhamStep 38000)) 0x40621d
+      [(8, 0x30), (8, 0xa2), (8, 0), (8, 0), (8, 0), (8, 0), (8, 0)])) (key! "vs")) = some 1 := by
+  decide +kernel
 
 end Rs1090.Props.C03
